@@ -82,11 +82,14 @@ class _EvoElement:
             elif spline_kind == "step_func":
                 if len(self.coeff) == len(self.tlist) - 1:
                     self.coeff = np.concatenate([self.coeff, [0.0]])
+                # a step coefficient is zero once its grid has ended:
+                # the last element of a full-length coefficient has no effect
+                coeff = np.concatenate([self.coeff[:-1], [0.0]])
                 if parse_version(qutip.__version__) >= parse_version("5.dev"):
-                    qu = QobjEvo([mat, self.coeff], tlist=self.tlist, order=0)
+                    qu = QobjEvo([mat, coeff], tlist=self.tlist, order=0)
                 else:
                     qu = QobjEvo(
-                        [mat, self.coeff],
+                        [mat, coeff],
                         tlist=self.tlist,
                         args={"_step_func_coeff": True},
                     )
@@ -650,6 +653,9 @@ def _fill_coeff(old_coeffs, old_tlist, full_tlist, args=None, tol=1.0e-10):
     if "_step_func_coeff" in args and args["_step_func_coeff"]:
         if len(old_coeffs) == len(old_tlist) - 1:
             old_coeffs = np.concatenate([old_coeffs, [0]])
+        elif len(old_coeffs) == len(old_tlist):
+            # the last element of a full-length step coefficient has no effect
+            old_coeffs = np.concatenate([old_coeffs[:-1], [0]])
         new_n = len(full_tlist)
         old_ind = 0  # index for old coeffs and tlist
         new_coeff = np.zeros(new_n)
